@@ -472,3 +472,7 @@ Fixpoint panic_walk (k : Z) (os : list iobs) : list (Z * Z) :=
        end) ++ panic_walk (k + 1) os'
   end.
 Definition check_C06 := failing (fun c => panic_walk 0 (cs_obs c)).
+
+(* ---------- C07: two executions of the same history on the implementation ----------
+   95 the app hashes committed after this end-block differ between the two executions *)
+Definition check_C07 := failing (fun c => map (fun k => (k, 95)) (cs_hashdiff c)).
